@@ -851,6 +851,7 @@ func (vx *Vaxis) handleSequence(seq ansi.Sequence) {
 			// Kitty keyboard protocol disambiguates this scenario,
 			// hopefully people are using that
 			if atomicLoad(&vx.reqCursorPos) {
+				verifC03(vx, "cpr.flag-loaded")
 				atomicStore(&vx.reqCursorPos, false)
 				if len(seq.Parameters) != 2 {
 					log.Error("not enough DSRCPR params")
